@@ -432,6 +432,26 @@ func execRequire(ops []Op) []string {
 		}
 	}
 	emit([]string{"path", "?.lua;alt/?.lua"}, "")
+	// the standard libraries are modules like any other: after OpenLibs each is registered under its name (the globals
+	// table under "_G"), so `require` of them returns the library itself and never searches
+	for _, n := range []string{"_G", "package", "table", "io", "os", "string", "math", "debug", "channel", "coroutine"} {
+		var want lua.LValue = L.Get(lua.GlobalsIndex)
+		if n != "_G" {
+			want = L.GetGlobal(n)
+		}
+		if got := w.loaded.RawGetString(n); got != want || want == lua.LNil {
+			keys := ""
+			w.loaded.ForEach(func(k, v lua.LValue) { keys += k.String() + " " })
+			out = append(out, fmt.Sprintf("X stdlib-not-registered => package.loaded[%q] is %s, the library table is %s; package.loaded has: %s", n, got.String(), want.String(), keys))
+			return out
+		}
+		top := L.GetTop()
+		if err := L.CallByParam(lua.P{Fn: w.require, NRet: 1, Protect: true}, lua.LString(n)); err != nil || L.Get(-1) != want {
+			out = append(out, fmt.Sprintf("X stdlib-require => require(%q) does not return the library (err=%v)", n, err))
+			return out
+		}
+		L.SetTop(top)
+	}
 	for _, op := range ops {
 		a := op.Args
 		switch a[0] {
